@@ -152,6 +152,17 @@ def check_case(R, res, model_answers, mismatches, label):
             fail = ','.join(n for n in names if not verd[n])
             R.violation('interp-disagree:' + ('static-inst:' if has_inst(res) else 'dynamic:') + fail,
                         'interpreter stacks disagree on one proof expression', replay)
+    # ---- oracle on the implementation: the client epilogue (save the proof, rebuild its conclusion as a pattern) succeeds under every stack
+    #      that accepted the term, or under none of them
+    ep = {n: runs[n].get('epilogue') for n in names if runs[n]['ok'] and runs[n].get('epilogue') is not None}
+    if ep and len({v == 'ok' for v in ep.values()}) > 1 and not (disagree or conc_bad):
+        bad = ','.join(n for n in names if n in ep and ep[n] != 'ok')
+        R.violation('interp-disagree:client-save-then-pattern:' + bad,
+                    'after the same proof expression, interpreter.save(proof) followed by interpreter.pattern(its conclusion) succeeds under some '
+                    'interpreter stacks and raises under others',
+                    {'case': res.get('case'), 'epilogue': ep, 'how': './check C08 --replay <this file>'})
+    R.hist['epilogue:' + ('none' if not ep else 'all-ok' if all(v == 'ok' for v in ep.values()) else 'all-raise' if all(v != 'ok' for v in ep.values()) else 'mixed')] = \
+        R.hist.get('epilogue:' + ('none' if not ep else 'all-ok' if all(v == 'ok' for v in ep.values()) else 'all-raise' if all(v != 'ok' for v in ep.values()) else 'mixed'), 0) + 1
     # ---- tie: model vs implementation, stack by stack
     if res.get('d3'):
         # the toolkit's notation-level evar_is_free (D3, owned by C06/C12) differs from the expanded judgement on a
@@ -459,5 +470,10 @@ def replay(path):
     ans = C.run_lines(mlref, lines) if ok else ['<no model>'] * len(lines)
     for (n, _, _), a in zip(STACKS, ans):
         r = res['runs'][n]
-        print(f'{n:28s} python={"OK " + r["conc"][:60] if r["ok"] else "FAIL(" + r.get("exc", "") + ")":70s} model={a[:60]}')
-    return 0
+        print(f'{n:28s} python={"OK " + r["conc"][:60] if r["ok"] else "FAIL(" + r.get("exc", "") + ")":70s} model={a[:60]}  '
+              f'then save(proof); pattern(conclusion): {r.get("epilogue", "-")}')
+    oks = {r['ok'] for r in res['runs'].values()}
+    eps = {r.get('epilogue') == 'ok' for r in res['runs'].values() if r['ok'] and r.get('epilogue') is not None}
+    bad = len(oks) > 1 or len(eps) > 1
+    print('VIOLATED (the interpreter stacks disagree)' if bad else 'HOLDS (all interpreter stacks agree)')
+    return 1 if bad else 0
